@@ -14,15 +14,16 @@ PROPS = {
     rule='keyid.rt: the full grid 16 flag sets x 9 touch policies x 4 usages with random versions/strings/principals; '
          'keyid.dec: valid encodings, single-member deletions / case renames / duplicates / retypes, other JSON values, damaged and random bytes. '
          'A case is non-trivial when its input is valid JSON (decoder reaches the struct rules) or it is an encode case; distinct = distinct argument fields.'
-         ' Every member is also duplicated systematically (exact and case-variant name, before and after the original, another value of the same JSON kind); strings include text that looks like escape sequences.',
+         ' Every member is also duplicated systematically (exact and case-variant name, before and after the original, another value of the same JSON kind); strings include text that looks like escape sequences.'
+         ' Touch policies and usages include wrap-around twins (values equal to a meaningful one modulo 2^4, 2^8, 2^16, 2^32).',
     trusted_base=JSON_TB,
     assumptions=['KeyID strings are valid UTF-8 (the property quantifies over UTF-8 strings)',
                  'a duplicated `prins` member whose later array contains null elements is not modelled (Go reuses the earlier slice elements)'],
  ),
  'C19': dict(
     group='codec', only=['certtype'], ops=['certtype'],
-    modules=['Ysshra.Props.C19', 'Ysshra.Bridge.CertType', 'Ysshra.Bridge.KeyId'],
-    theorem_files=['Props/C19.lean', 'Bridge/CertType.lean'],
+    modules=['Ysshra.Props.C19', 'Ysshra.Bridge.CertType', 'Ysshra.Bridge.KeyId', 'Ysshra.Bridge.SnapKeyId'],
+    theorem_files=['Props/C19.lean', 'Bridge/CertType.lean', 'Bridge/SnapKeyId.lean'],
     anchors=['sshutils/cert/', 'keyid/'],
     n=dict(quick=2000, thorough=40000),
     trivial=lambda c: False,
@@ -30,7 +31,8 @@ PROPS = {
     rule='exhaustive grid: 16 flag sets x touch in {-1,0,1,2,3,4,2^31} x critical option in {nil map, empty map, empty value, set, other key} '
          '(KeyIDs serialised without the sanity check so inconsistent ones reach GetType), nil certificate, principal lists of length 0..3, '
          'plus near-miss and non-JSON KeyIDs; every case is non-trivial; distinct = distinct argument fields.'
-         ' Each case classifies twice: in between the harness decodes the KeyID itself and changes every field of the value it got (classification-depends-on-history).',
+         ' Each case classifies twice: in between the harness decodes the KeyID itself and changes every field of the value it got (classification-depends-on-history).'
+         ' Touch policies include 17..19, 257..259, 65537, 2^32+1..3, -15..-13.',
     trusted_base=JSON_TB,
     assumptions=['GetPrincipals: a nil result and an empty result are identified'],
  ),
@@ -58,7 +60,8 @@ PROPS = {
          'nested extension maps (integer numbers), strings with spaces, @, =, non-ASCII; each output is decoded again. msg.dec: legacy texts (repeated keys, empty values, '
          '= inside values, stray and Unicode spaces), JSON texts (null, other values, duplicates, retyped members, case-folded names), damaged encoder outputs, random bytes. '
          'Every case is non-trivial; distinct = distinct argument fields.'
-         ' Cross-format texts: JSON attribute objects, complete or lacking / emptying required members, whose strings contain legacy-format tokens.',
+         ' Cross-format texts: JSON attribute objects, complete or lacking / emptying required members, whose strings contain legacy-format tokens.'
+         ' Interface versions, algorithm numbers and touchless-sudo times include wrap-around twins and the 32- / 64-bit limits.',
     trusted_base=JSON_TB,
     assumptions=['extension-map numbers are compared by kind only (float formatting is Go-to-Go)', 'message.Unmarshal as repaired by the fix for finding F1'],
  ),
@@ -75,7 +78,8 @@ PROPS = {
          'shifted / truncated padding, wrong-hash and MD5 identifiers, all labels 0..17, bit flips of signature and body, other signature lengths, '
          'non-RSA keys, device certificate issued by root / other CA / self-signed / expired / not yet valid. '
          'Non-trivial = chain verifies and key is RSA (the PKCS#1 comparison is reached); distinct = distinct argument fields.'
-         ' One Attestor serves the whole run (as in the RA); device certificates include one that repeats the genuine issuer name and serial under a forged issuer.',
+         ' One Attestor serves the whole run (as in the RA); device certificates include one that repeats the genuine issuer name and serial under a forged issuer.'
+         ' Modulus sizes include ones that are not a multiple of 8 bits (1031; thorough 1025 / 1033 / 2047 / 2049); the genuine signature followed by extra bytes and the genuine value plus the modulus.',
     trusted_base=['crypto/x509 chain building (oracle: the harness runs the same Verify call and sends its verdict)', 'SHA-1/256/384/512 digests of the body are oracles carried on the line',
                   'math/big modular exponentiation is modelled by square-and-multiply on Nat'],
     assumptions=['RSA / SHA hardness is not part of the theorem: it states which encoded messages are accepted'],
@@ -98,18 +102,19 @@ PROPS = {
     assumptions=['the DER decoder itself is not modelled in Lean; theorems cover ModHex and PEM bundle ordering'],
  ),
  'C12': dict(
-    group='serve', only=['serve'], ops=['serve'],
-    klass=lambda c: 'serve:' + (c['model'] or ['?'])[0] + ':frames' + str(min(4, c['args'][1].count('|') + (0 if c['args'][1] == '[]' else 1))),
+    group='serve', only=['serve'], ops=['serve', 'servereal'],
+    klass=lambda c: ('servereal:' + (c['impl'] or ['?'])[0]) if c['op'] == 'servereal' else 'serve:' + (c['model'] or ['?'])[0] + ':frames' + str(min(4, c['args'][1].count('|') + (0 if c['args'][1] == '[]' else 1))),
     modules=['Ysshra.Props.C12', 'Ysshra.Bridge.Wire', 'Ysshra.Bridge.SnapYubi'],
     theorem_files=['Props/C12.lean', 'Bridge/Wire.lean', 'Bridge/SnapYubi.lean'],
     anchors=['agent/yubiagent/'],
     n=dict(quick=3000, thorough=120000),
-    trivial=lambda c: c['args'][1] == '[]',
+    trivial=lambda c: c['op'] == 'serve' and c['args'][1] == '[]',
     rule='byte streams: frames of length 0 and 1 for every code 0..255, truncated headers and bodies, declared lengths 1 .. 2^32-1 (incl. 16 MiB and 16 MiB+1), '
          'concatenations of 1..4 grammar-derived frames (both add-hardware-certificate encodings with valid / invalid / trailing data, slot names, wait codes, '
          'list / sign / add / constrained add with truncated constraints / remove / lock / unlock, unknown and raw-forwarded codes, random bodies) with truncated or random tails. '
          'Non-trivial = the stream contains at least one complete frame; distinct = distinct argument fields.'
-         ' Declared lengths around the bound: 16 MiB-1 .. 16 MiB+5, +8, +1024, 17 MiB.',
+         ' Declared lengths around the bound: 16 MiB-1 .. 16 MiB+5, +8, +1024, 17 MiB.'
+         ' Operation servereal: every message code alone, with one more byte and as wait operand, and random streams, against the real server over a real shim over a keyring (judged for survival only).',
     trusted_base=['ssh.ParsePublicKey verdicts and the reply of x/crypto\'s standard agent server to each single standard request are oracles computed by the harness with the same library calls',
                   'allocation is observed through runtime.MemStats.TotalAlloc around the call'],
     assumptions=['ServeAgent as repaired for findings F2 (length guards) and F3 (recover around the forwarded standard request)'],
@@ -117,8 +122,8 @@ PROPS = {
  'C13': dict(
     group='serve', only=['rpc', 'slots'], ops=['rpc', 'slots'],
     klass=lambda c: c['op'] + ':' + (c['args'][0] if c['op'] == 'rpc' else c['args'][2]) + ':' + ((c['model'] or ['?', '?'])[-1].split(' ')[0].split(':')[0])[:12],
-    modules=['Ysshra.Props.C13', 'Ysshra.Bridge.Wire', 'Ysshra.Bridge.SnapYubi'],
-    theorem_files=['Props/C13.lean', 'Bridge/SnapYubi.lean'],
+    modules=['Ysshra.Props.C13', 'Ysshra.Bridge.Wire', 'Ysshra.Bridge.SnapYubi', 'Ysshra.Bridge.SnapParse'],
+    theorem_files=['Props/C13.lean', 'Bridge/SnapYubi.lean', 'Bridge/SnapParse.lean'],
     anchors=['agent/yubiagent/'],
     n=dict(quick=1500, thorough=40000),
     timeout=dict(quick=900, thorough=3000),
@@ -127,7 +132,8 @@ PROPS = {
          'list-slots (well-formed, comma-containing and empty names x error texts), read/attest-slot (certificate, certificate+error, error, unknown), wait codes, raw forward of uninterpreted codes, '
          'sign (0..64 KiB data, all flags, failing), add (comments, lifetime, confirm), remove, remove-all, list, lock/unlock (passphrases, failing). '
          'slots: (*server).ListSlots with a fake yubico-piv-tool first on PATH printing well-formed, short, truncated, CRLF, empty output or exiting non-zero; remote mode. Every case is non-trivial; distinct = distinct argument fields.'
-         ' After the operation, follow-up raw requests of 13 sizes are sent on the same connection and the arguments the served agent retained are re-read (argument-changed-after-delivery). Raw-forward replies are scriptable (request code 0xFD): every status byte alone and with a body, empty, random.',
+         ' After the operation, follow-up raw requests of 13 sizes are sent on the same connection and the arguments the served agent retained are re-read (argument-changed-after-delivery). Raw-forward replies are scriptable (request code 0xFD): every status byte alone and with a body, empty, random.'
+         ' Keys of every type: Ed25519, ECDSA P-256 / P-384, RSA-2048 and certificates over an Ed25519 and an RSA key.',
     trusted_base=["x/crypto's agent client and server carry the standard operations; ysshra's part is the one-frame forwarder (modelled as identity, checked by correspondence)",
                   'ssh.ParsePublicKey verdicts are oracles on the case line', 'os/exec and the fake PIV tool'],
     assumptions=['well-formedness required by the wire format is explicit in the theorems; the excluded points are the known findings F11a-c'],
@@ -158,7 +164,8 @@ PROPS = {
     timeout=dict(quick=900, thorough=3400),
     trivial=lambda c: c['args'][3].count(';') < 2,
     rule='histories of 1..25 operations (list, signers, sign, add, add-hardware-certificate, remove, remove-all, lock/unlock with right / wrong / empty passphrases, and add / remove / remove-all done directly on the underlying keyring) against a real shimagent.Server over a harness-served x/crypto keyring, both upstream modes, 0..4 initial identities; keys Ed25519 / ECDSA P-256 / RSA-2048; certificates signed by a harness CA with validity windows past / current / future / forever / zero / start-above-MaxInt64 / end-near-2^64 / lapsing during the history (the harness sleeps across it), KeyIDs valid YSSHCA of several types, unsupported version, inconsistent flags, missing member, no applicable type, free text, empty; faults per operation: failure reply / malformed reply per request kind, oversized frame, connection closed, failing listing during construction. The Unix time read before each operation and what keyid.Unmarshal / cert.Label say about each certificate travel on the line. Non-trivial = history with at least 3 operations; distinct = distinct argument fields.'
-         ' The generator is state-aware: set-up prefixes register hardware certificates for keys really held (sometimes with the same certificate upstream), operations mostly name blobs the history touched before, locked phases last several operations, passphrases include ones longer than 64 bytes sharing a long prefix. A disagreement with the state machine is attributed to C07 / C08 / C09 / C10 by what differs at the first differing operation (Drv/Shim.classify).',
+         ' The generator is state-aware: set-up prefixes register hardware certificates for keys really held (sometimes with the same certificate upstream), operations mostly name blobs the history touched before, locked phases last several operations, passphrases include ones longer than 64 bytes sharing a long prefix. A disagreement with the state machine is attributed to C07 / C08 / C09 / C10 by what differs at the first differing operation (Drv/Shim.classify).'
+         ' Validity windows also next to 2^31, 2^32 and 2^63; KeyID kinds next to the consistency rules (headless / nonce with touch policy 0, -1, 17; touch policy 4, 258); passphrase lengths on and next to powers of two up to 65536; raw-forward requests (code 200, echoed by the test agent) with body sizes on and next to powers of two and replies failure / oversize headers 0x7fffffff, 0x80000000, 0xffffffff, 16 MiB+1 / closed; every operation runs under a 20 s watchdog. Whether a KeyID is a YSSHCA KeyID is decided by the C05 decoder model on its token tree.',
     trusted_base=["x/crypto keyring and agent client are the underlying agent (modelled as Shim.UAgent; the model is compared with the real keyring's content after every operation)", 'keyid.Unmarshal and cert.Label verdicts per certificate are oracles on the line (C05 / C19 decide them)', 'SHA-256 as map key is taken collision-free; ssh marshalling injective', 'wall-clock seconds are read by the harness just before each call (windows keep a margin of >= 2 s from the clock except in the lapse cases, which sleep 5 s)'],
     assumptions=['shim as repaired for F6; time is the integer second the harness observed'],
  ),
@@ -172,91 +179,98 @@ PROPS = {
     timeout=dict(quick=900, thorough=3400),
     trivial=lambda c: c['args'][3].count(';') < 2,
     rule='histories of 1..25 operations (list, signers, sign, add, add-hardware-certificate, remove, remove-all, lock/unlock with right / wrong / empty passphrases, and add / remove / remove-all done directly on the underlying keyring) against a real shimagent.Server over a harness-served x/crypto keyring, both upstream modes, 0..4 initial identities; keys Ed25519 / ECDSA P-256 / RSA-2048; certificates signed by a harness CA with validity windows past / current / future / forever / zero / start-above-MaxInt64 / end-near-2^64 / lapsing during the history (the harness sleeps across it), KeyIDs valid YSSHCA of several types, unsupported version, inconsistent flags, missing member, no applicable type, free text, empty; faults per operation: failure reply / malformed reply per request kind, oversized frame, connection closed, failing listing during construction. The Unix time read before each operation and what keyid.Unmarshal / cert.Label say about each certificate travel on the line. Non-trivial = history with at least 3 operations; distinct = distinct argument fields.'
-         ' The generator is state-aware: set-up prefixes register hardware certificates for keys really held (sometimes with the same certificate upstream), operations mostly name blobs the history touched before, locked phases last several operations, passphrases include ones longer than 64 bytes sharing a long prefix. A disagreement with the state machine is attributed to C07 / C08 / C09 / C10 by what differs at the first differing operation (Drv/Shim.classify).',
+         ' The generator is state-aware: set-up prefixes register hardware certificates for keys really held (sometimes with the same certificate upstream), operations mostly name blobs the history touched before, locked phases last several operations, passphrases include ones longer than 64 bytes sharing a long prefix. A disagreement with the state machine is attributed to C07 / C08 / C09 / C10 by what differs at the first differing operation (Drv/Shim.classify).'
+         ' Validity windows also next to 2^31, 2^32 and 2^63; KeyID kinds next to the consistency rules (headless / nonce with touch policy 0, -1, 17; touch policy 4, 258); passphrase lengths on and next to powers of two up to 65536; raw-forward requests (code 200, echoed by the test agent) with body sizes on and next to powers of two and replies failure / oversize headers 0x7fffffff, 0x80000000, 0xffffffff, 16 MiB+1 / closed; every operation runs under a 20 s watchdog. Whether a KeyID is a YSSHCA KeyID is decided by the C05 decoder model on its token tree.',
     trusted_base=["x/crypto keyring and agent client are the underlying agent (modelled as Shim.UAgent; the model is compared with the real keyring's content after every operation)", 'keyid.Unmarshal and cert.Label verdicts per certificate are oracles on the line (C05 / C19 decide them)', 'SHA-256 as map key is taken collision-free; ssh marshalling injective', 'wall-clock seconds are read by the harness just before each call (windows keep a margin of >= 2 s from the clock except in the lapse cases, which sleep 5 s)'],
     assumptions=['Forward / Extension while locked are pass-through and not restricted by the statement'],
  ),
  'C09': dict(
     group='shim', only=['hist'], ops=['hist'],
     klass=lambda c: 'hist:noup' + c['args'][0] + ':ops' + str(min(25, 5 * (c['args'][3].count(';') // 5))) + ('+faults' if '!' in c['args'][3] else ''),
-    modules=['Ysshra.Props.C09', 'Ysshra.Bridge.SnapShim'],
-    theorem_files=['Props/C09.lean', 'Bridge/SnapShim.lean'],
+    modules=['Ysshra.Props.C09', 'Ysshra.Bridge.SnapShim', 'Ysshra.Bridge.CertType', 'Ysshra.Bridge.KeyId', 'Ysshra.Bridge.SnapKeyId'],
+    theorem_files=['Props/C09.lean', 'Bridge/SnapShim.lean', 'Bridge/CertType.lean', 'Bridge/KeyId.lean', 'Bridge/SnapKeyId.lean'],
     anchors=['agent/shimagent/', 'sshutils/cert/validation.go'],
     n=dict(quick=500, thorough=20000),
     timeout=dict(quick=900, thorough=3400),
     trivial=lambda c: c['args'][3].count(';') < 2,
     rule='histories of 1..25 operations (list, signers, sign, add, add-hardware-certificate, remove, remove-all, lock/unlock with right / wrong / empty passphrases, and add / remove / remove-all done directly on the underlying keyring) against a real shimagent.Server over a harness-served x/crypto keyring, both upstream modes, 0..4 initial identities; keys Ed25519 / ECDSA P-256 / RSA-2048; certificates signed by a harness CA with validity windows past / current / future / forever / zero / start-above-MaxInt64 / end-near-2^64 / lapsing during the history (the harness sleeps across it), KeyIDs valid YSSHCA of several types, unsupported version, inconsistent flags, missing member, no applicable type, free text, empty; faults per operation: failure reply / malformed reply per request kind, oversized frame, connection closed, failing listing during construction. The Unix time read before each operation and what keyid.Unmarshal / cert.Label say about each certificate travel on the line. Non-trivial = history with at least 3 operations; distinct = distinct argument fields.'
-         ' The generator is state-aware: set-up prefixes register hardware certificates for keys really held (sometimes with the same certificate upstream), operations mostly name blobs the history touched before, locked phases last several operations, passphrases include ones longer than 64 bytes sharing a long prefix. A disagreement with the state machine is attributed to C07 / C08 / C09 / C10 by what differs at the first differing operation (Drv/Shim.classify).',
+         ' The generator is state-aware: set-up prefixes register hardware certificates for keys really held (sometimes with the same certificate upstream), operations mostly name blobs the history touched before, locked phases last several operations, passphrases include ones longer than 64 bytes sharing a long prefix. A disagreement with the state machine is attributed to C07 / C08 / C09 / C10 by what differs at the first differing operation (Drv/Shim.classify).'
+         ' Validity windows also next to 2^31, 2^32 and 2^63; KeyID kinds next to the consistency rules (headless / nonce with touch policy 0, -1, 17; touch policy 4, 258); passphrase lengths on and next to powers of two up to 65536; raw-forward requests (code 200, echoed by the test agent) with body sizes on and next to powers of two and replies failure / oversize headers 0x7fffffff, 0x80000000, 0xffffffff, 16 MiB+1 / closed; every operation runs under a 20 s watchdog. Whether a KeyID is a YSSHCA KeyID is decided by the C05 decoder model on its token tree.',
     trusted_base=["x/crypto keyring and agent client are the underlying agent (modelled as Shim.UAgent; the model is compared with the real keyring's content after every operation)", 'keyid.Unmarshal and cert.Label verdicts per certificate are oracles on the line (C05 / C19 decide them)', 'SHA-256 as map key is taken collision-free; ssh marshalling injective', 'wall-clock seconds are read by the harness just before each call (windows keep a margin of >= 2 s from the clock except in the lapse cases, which sleep 5 s)'],
     assumptions=['"decodes as a YSSHCA KeyID" is the keyid.Unmarshal verdict (C05)'],
  ),
  'C10': dict(
     group='shim', only=['hist', 'weird'], ops=['hist'],
     klass=lambda c: 'hist:noup' + c['args'][0] + ':ops' + str(min(25, 5 * (c['args'][3].count(';') // 5))) + ('+faults' if '!' in c['args'][3] else ''),
-    modules=['Ysshra.Props.C10', 'Ysshra.Bridge.SnapShim'],
-    theorem_files=['Props/C10.lean', 'Bridge/SnapShim.lean'],
+    modules=['Ysshra.Props.C10', 'Ysshra.Bridge.SnapShim', 'Ysshra.Bridge.CertType', 'Ysshra.Bridge.KeyId', 'Ysshra.Bridge.SnapKeyId'],
+    theorem_files=['Props/C10.lean', 'Bridge/SnapShim.lean', 'Bridge/CertType.lean', 'Bridge/KeyId.lean', 'Bridge/SnapKeyId.lean'],
     anchors=['agent/shimagent/', 'sshutils/cert/validation.go'],
     n=dict(quick=500, thorough=20000),
     timeout=dict(quick=900, thorough=3400),
     trivial=lambda c: c['args'][3].count(';') < 2,
     rule='histories of 1..25 operations (list, signers, sign, add, add-hardware-certificate, remove, remove-all, lock/unlock with right / wrong / empty passphrases, and add / remove / remove-all done directly on the underlying keyring) against a real shimagent.Server over a harness-served x/crypto keyring, both upstream modes, 0..4 initial identities; keys Ed25519 / ECDSA P-256 / RSA-2048; certificates signed by a harness CA with validity windows past / current / future / forever / zero / start-above-MaxInt64 / end-near-2^64 / lapsing during the history (the harness sleeps across it), KeyIDs valid YSSHCA of several types, unsupported version, inconsistent flags, missing member, no applicable type, free text, empty; faults per operation: failure reply / malformed reply per request kind, oversized frame, connection closed, failing listing during construction. The Unix time read before each operation and what keyid.Unmarshal / cert.Label say about each certificate travel on the line. Non-trivial = history with at least 3 operations; distinct = distinct argument fields.'
-         ' The generator is state-aware: set-up prefixes register hardware certificates for keys really held (sometimes with the same certificate upstream), operations mostly name blobs the history touched before, locked phases last several operations, passphrases include ones longer than 64 bytes sharing a long prefix. A disagreement with the state machine is attributed to C07 / C08 / C09 / C10 by what differs at the first differing operation (Drv/Shim.classify).',
+         ' The generator is state-aware: set-up prefixes register hardware certificates for keys really held (sometimes with the same certificate upstream), operations mostly name blobs the history touched before, locked phases last several operations, passphrases include ones longer than 64 bytes sharing a long prefix. A disagreement with the state machine is attributed to C07 / C08 / C09 / C10 by what differs at the first differing operation (Drv/Shim.classify).'
+         ' Validity windows also next to 2^31, 2^32 and 2^63; KeyID kinds next to the consistency rules (headless / nonce with touch policy 0, -1, 17; touch policy 4, 258); passphrase lengths on and next to powers of two up to 65536; raw-forward requests (code 200, echoed by the test agent) with body sizes on and next to powers of two and replies failure / oversize headers 0x7fffffff, 0x80000000, 0xffffffff, 16 MiB+1 / closed; every operation runs under a 20 s watchdog. Whether a KeyID is a YSSHCA KeyID is decided by the C05 decoder model on its token tree.',
     trusted_base=["x/crypto keyring and agent client are the underlying agent (modelled as Shim.UAgent; the model is compared with the real keyring's content after every operation)", 'keyid.Unmarshal and cert.Label verdicts per certificate are oracles on the line (C05 / C19 decide them)', 'SHA-256 as map key is taken collision-free; ssh marshalling injective', 'wall-clock seconds are read by the harness just before each call (windows keep a margin of >= 2 s from the clock except in the lapse cases, which sleep 5 s)'],
     assumptions=['known finding F10 (dependency panic on an unexpected reply type) is excluded by the fault styles of the theorems'],
  ),
  'C01': dict(
     group='gensign', only=['gs'], ops=['gs'],
     klass=lambda c: 'gs:runs' + str(c['args'][1].count(';') + 1) + ':' + ('ok' if 'res=ok' in ((c['model'] or [''])[0]) else 'noSuccess'),
-    modules=['Ysshra.Props.C01', 'Ysshra.Bridge.Gensign', 'Ysshra.Bridge.SnapGensignAux'],
-    theorem_files=['Props/C01.lean', 'Bridge/Gensign.lean', 'Bridge/SnapGensignAux.lean'],
+    modules=['Ysshra.Props.C01', 'Ysshra.Bridge.Gensign', 'Ysshra.Bridge.SnapGensignAux', 'Ysshra.Bridge.SnapTls', 'Ysshra.Bridge.SnapKeyId'],
+    theorem_files=['Props/C01.lean', 'Bridge/Gensign.lean', 'Bridge/SnapGensignAux.lean', 'Bridge/SnapTls.lean', 'Bridge/SnapKeyId.lean'],
     anchors=['gensign/', 'agent/ssh/', 'csr/', 'crypki/common.go'],
     n=dict(quick=600, thorough=30000),
     timeout=dict(quick=900, thorough=3400),
     trivial=lambda c: 'gen:' not in ((c['model'] or [''])[0]),
     rule="histories of 1..5 runs of the real gensign.Run against one forwarded agent (x/crypto keyring behind a scripted agent served over a Unix socket pair) with 0..4 pre-existing identities (plain keys, foreign certificates, comments that are near-misses of the handler label); per run: policy NONS/NSOK, hard-key flag, login / user / host / IP / transaction-id strings with JSON metacharacters and non-ASCII, key directory states (.pub vs bare, absent, unparsable, directory, another user's key), agent behaviours (honest with / without the key, other key, other data, replayed signature, garbage, empty, failure), 1..4 handlers (regular + scripted accept / reject / panic in Name / Authenticate / Generate / AddCertsToAgent, 0..2 requests), CA replies (0..4 certificates with 0..4 comments, foreign-key certificate, plain key, error, panic), validity one second .. ten years and the uint32 wrap-around ends, key-identifier maps by name in any case or by number, failure reply or connection loss at agent request index 0..8. Compared: error kind, ordered trace of handler / agent / CA events (lifetimes, comments, which key and certificate), challenge length and freshness across the history, final agent identities, the request the CA received (KeyID token tree). Non-trivial = at least one run got past authentication; distinct = distinct argument fields."
-         " Key-file states also: empty, white space only, comment only. Scripted handlers include one whose Name() panics after a successful authentication. CA kinds realdown / realdead put the real crypki.Signer (closed port; live or already cancelled context) behind Run. Verdicts are the clause predicates of Spec/Gensign.lean on the implementation's own trace (tags Cnn.<clause>).",
+         " Key-file states also: empty, white space only, comment only. Scripted handlers include one whose Name() panics after a successful authentication. CA kinds realdown / realdead put the real crypki.Signer (closed port; live or already cancelled context) behind Run. Verdicts are the clause predicates of Spec/Gensign.lean on the implementation's own trace (tags Cnn.<clause>)."
+         ' Key-identifier maps also with numbers written with leading zeros; a key whose CSRs() panics.',
     trusted_base=['signature verification, key generation and crypto/rand are real in the run and oracles in the model (honest-signer law built into `verifies`)', 'x/crypto agent client/server and keyring', 'mapstructure decoding of the handler configuration (the algorithm-name hook is modelled in the driver)'],
     assumptions=['unforgeability and unpredictability of the challenge are assumptions (partial): the model pins which verification gates everything'],
  ),
  'C02': dict(
     group='gensign', only=['gs'], ops=['gs'],
     klass=lambda c: 'gs:runs' + str(c['args'][1].count(';') + 1) + ':' + ('ok' if 'res=ok' in ((c['model'] or [''])[0]) else 'noSuccess'),
-    modules=['Ysshra.Props.C02', 'Ysshra.Bridge.Gensign', 'Ysshra.Bridge.SnapGensignAux', 'Ysshra.Bridge.KeyId', 'Ysshra.Bridge.SnapKeyId'],
-    theorem_files=['Props/C02.lean', 'Bridge/Gensign.lean', 'Bridge/SnapGensignAux.lean', 'Bridge/KeyId.lean', 'Bridge/SnapKeyId.lean'],
+    modules=['Ysshra.Props.C02', 'Ysshra.Bridge.Gensign', 'Ysshra.Bridge.SnapGensignAux', 'Ysshra.Bridge.KeyId', 'Ysshra.Bridge.SnapKeyId', 'Ysshra.Bridge.SnapTls'],
+    theorem_files=['Props/C02.lean', 'Bridge/Gensign.lean', 'Bridge/SnapGensignAux.lean', 'Bridge/KeyId.lean', 'Bridge/SnapKeyId.lean', 'Bridge/SnapTls.lean'],
     anchors=['gensign/', 'agent/ssh/', 'csr/', 'crypki/common.go'],
     n=dict(quick=600, thorough=30000),
     timeout=dict(quick=900, thorough=3400),
     trivial=lambda c: 'gen:' not in ((c['model'] or [''])[0]),
     rule="histories of 1..5 runs of the real gensign.Run against one forwarded agent (x/crypto keyring behind a scripted agent served over a Unix socket pair) with 0..4 pre-existing identities (plain keys, foreign certificates, comments that are near-misses of the handler label); per run: policy NONS/NSOK, hard-key flag, login / user / host / IP / transaction-id strings with JSON metacharacters and non-ASCII, key directory states (.pub vs bare, absent, unparsable, directory, another user's key), agent behaviours (honest with / without the key, other key, other data, replayed signature, garbage, empty, failure), 1..4 handlers (regular + scripted accept / reject / panic in Name / Authenticate / Generate / AddCertsToAgent, 0..2 requests), CA replies (0..4 certificates with 0..4 comments, foreign-key certificate, plain key, error, panic), validity one second .. ten years and the uint32 wrap-around ends, key-identifier maps by name in any case or by number, failure reply or connection loss at agent request index 0..8. Compared: error kind, ordered trace of handler / agent / CA events (lifetimes, comments, which key and certificate), challenge length and freshness across the history, final agent identities, the request the CA received (KeyID token tree). Non-trivial = at least one run got past authentication; distinct = distinct argument fields."
-         " Key-file states also: empty, white space only, comment only. Scripted handlers include one whose Name() panics after a successful authentication. CA kinds realdown / realdead put the real crypki.Signer (closed port; live or already cancelled context) behind Run. Verdicts are the clause predicates of Spec/Gensign.lean on the implementation's own trace (tags Cnn.<clause>).",
+         " Key-file states also: empty, white space only, comment only. Scripted handlers include one whose Name() panics after a successful authentication. CA kinds realdown / realdead put the real crypki.Signer (closed port; live or already cancelled context) behind Run. Verdicts are the clause predicates of Spec/Gensign.lean on the implementation's own trace (tags Cnn.<clause>)."
+         ' Key-identifier maps also with numbers written with leading zeros; a key whose CSRs() panics.',
     trusted_base=['signature verification, key generation and crypto/rand are real in the run and oracles in the model (honest-signer law built into `verifies`)', 'x/crypto agent client/server and keyring', 'mapstructure decoding of the handler configuration (the algorithm-name hook is modelled in the driver)'],
     assumptions=['fresh key pairs are distinct random draws (crypto/rand); the KeyID clause uses C05'],
  ),
  'C03': dict(
     group='gensign', only=['gs'], ops=['gs'],
     klass=lambda c: 'gs:runs' + str(c['args'][1].count(';') + 1) + ':' + ('ok' if 'res=ok' in ((c['model'] or [''])[0]) else 'noSuccess'),
-    modules=['Ysshra.Props.C03', 'Ysshra.Bridge.Gensign', 'Ysshra.Bridge.SnapGensignAux'],
-    theorem_files=['Props/C03.lean', 'Bridge/Gensign.lean', 'Bridge/SnapGensignAux.lean'],
+    modules=['Ysshra.Props.C03', 'Ysshra.Bridge.Gensign', 'Ysshra.Bridge.SnapGensignAux', 'Ysshra.Bridge.SnapTls', 'Ysshra.Bridge.SnapKeyId'],
+    theorem_files=['Props/C03.lean', 'Bridge/Gensign.lean', 'Bridge/SnapGensignAux.lean', 'Bridge/SnapTls.lean', 'Bridge/SnapKeyId.lean'],
     anchors=['gensign/', 'agent/ssh/', 'csr/', 'crypki/common.go'],
     n=dict(quick=600, thorough=30000),
     timeout=dict(quick=900, thorough=3400),
     trivial=lambda c: 'gen:' not in ((c['model'] or [''])[0]),
     rule="histories of 1..5 runs of the real gensign.Run against one forwarded agent (x/crypto keyring behind a scripted agent served over a Unix socket pair) with 0..4 pre-existing identities (plain keys, foreign certificates, comments that are near-misses of the handler label); per run: policy NONS/NSOK, hard-key flag, login / user / host / IP / transaction-id strings with JSON metacharacters and non-ASCII, key directory states (.pub vs bare, absent, unparsable, directory, another user's key), agent behaviours (honest with / without the key, other key, other data, replayed signature, garbage, empty, failure), 1..4 handlers (regular + scripted accept / reject / panic in Name / Authenticate / Generate / AddCertsToAgent, 0..2 requests), CA replies (0..4 certificates with 0..4 comments, foreign-key certificate, plain key, error, panic), validity one second .. ten years and the uint32 wrap-around ends, key-identifier maps by name in any case or by number, failure reply or connection loss at agent request index 0..8. Compared: error kind, ordered trace of handler / agent / CA events (lifetimes, comments, which key and certificate), challenge length and freshness across the history, final agent identities, the request the CA received (KeyID token tree). Non-trivial = at least one run got past authentication; distinct = distinct argument fields."
-         " Key-file states also: empty, white space only, comment only. Scripted handlers include one whose Name() panics after a successful authentication. CA kinds realdown / realdead put the real crypki.Signer (closed port; live or already cancelled context) behind Run. Verdicts are the clause predicates of Spec/Gensign.lean on the implementation's own trace (tags Cnn.<clause>).",
+         " Key-file states also: empty, white space only, comment only. Scripted handlers include one whose Name() panics after a successful authentication. CA kinds realdown / realdead put the real crypki.Signer (closed port; live or already cancelled context) behind Run. Verdicts are the clause predicates of Spec/Gensign.lean on the implementation's own trace (tags Cnn.<clause>)."
+         ' Key-identifier maps also with numbers written with leading zeros; a key whose CSRs() panics.',
     trusted_base=['signature verification, key generation and crypto/rand are real in the run and oracles in the model (honest-signer law built into `verifies`)', 'x/crypto agent client/server and keyring', 'mapstructure decoding of the handler configuration (the algorithm-name hook is modelled in the driver)'],
     assumptions=['the requester agent behaves like the x/crypto keyring'],
  ),
  'C04': dict(
     group='gensign', only=['gs'], ops=['gs'],
     klass=lambda c: 'gs:runs' + str(c['args'][1].count(';') + 1) + ':' + ('ok' if 'res=ok' in ((c['model'] or [''])[0]) else 'noSuccess'),
-    modules=['Ysshra.Props.C04', 'Ysshra.Bridge.Gensign', 'Ysshra.Bridge.SnapGensignAux'],
-    theorem_files=['Props/C04.lean', 'Bridge/Gensign.lean', 'Bridge/SnapGensignAux.lean'],
+    modules=['Ysshra.Props.C04', 'Ysshra.Bridge.Gensign', 'Ysshra.Bridge.SnapGensignAux', 'Ysshra.Bridge.SnapTls', 'Ysshra.Bridge.SnapKeyId'],
+    theorem_files=['Props/C04.lean', 'Bridge/Gensign.lean', 'Bridge/SnapGensignAux.lean', 'Bridge/SnapTls.lean', 'Bridge/SnapKeyId.lean'],
     anchors=['gensign/', 'agent/ssh/', 'csr/', 'crypki/common.go'],
     n=dict(quick=600, thorough=30000),
     timeout=dict(quick=900, thorough=3400),
     trivial=lambda c: 'gen:' not in ((c['model'] or [''])[0]),
     rule="histories of 1..5 runs of the real gensign.Run against one forwarded agent (x/crypto keyring behind a scripted agent served over a Unix socket pair) with 0..4 pre-existing identities (plain keys, foreign certificates, comments that are near-misses of the handler label); per run: policy NONS/NSOK, hard-key flag, login / user / host / IP / transaction-id strings with JSON metacharacters and non-ASCII, key directory states (.pub vs bare, absent, unparsable, directory, another user's key), agent behaviours (honest with / without the key, other key, other data, replayed signature, garbage, empty, failure), 1..4 handlers (regular + scripted accept / reject / panic in Name / Authenticate / Generate / AddCertsToAgent, 0..2 requests), CA replies (0..4 certificates with 0..4 comments, foreign-key certificate, plain key, error, panic), validity one second .. ten years and the uint32 wrap-around ends, key-identifier maps by name in any case or by number, failure reply or connection loss at agent request index 0..8. Compared: error kind, ordered trace of handler / agent / CA events (lifetimes, comments, which key and certificate), challenge length and freshness across the history, final agent identities, the request the CA received (KeyID token tree). Non-trivial = at least one run got past authentication; distinct = distinct argument fields."
-         " Key-file states also: empty, white space only, comment only. Scripted handlers include one whose Name() panics after a successful authentication. CA kinds realdown / realdead put the real crypki.Signer (closed port; live or already cancelled context) behind Run. Verdicts are the clause predicates of Spec/Gensign.lean on the implementation's own trace (tags Cnn.<clause>).",
+         " Key-file states also: empty, white space only, comment only. Scripted handlers include one whose Name() panics after a successful authentication. CA kinds realdown / realdead put the real crypki.Signer (closed port; live or already cancelled context) behind Run. Verdicts are the clause predicates of Spec/Gensign.lean on the implementation's own trace (tags Cnn.<clause>)."
+         ' Key-identifier maps also with numbers written with leading zeros; a key whose CSRs() panics.',
     trusted_base=['signature verification, key generation and crypto/rand are real in the run and oracles in the model (honest-signer law built into `verifies`)', 'x/crypto agent client/server and keyring', 'mapstructure decoding of the handler configuration (the algorithm-name hook is modelled in the driver)'],
     assumptions=['fatal runtime errors that recover cannot catch are out of scope'],
  ),
@@ -271,7 +285,8 @@ PROPS = {
     timeout=dict(quick=900, thorough=3400),
     trivial=lambda c: (c['op'] == 'sign' and c['args'][0] == '-') or (c['op'] == 'backoff' and c['args'][4] == '0'),
     rule='sign: the real crypki.NewSigner + Sign (Retries=1, per-try timeout 1.5 s) against 0..4 real TLS gRPC Signing servers on 127.0.0.1..4 sharing one port; per endpoint an identity (issued by configured CA 1 / CA 2, by another CA, self-signed, expired, not yet valid, valid for another address, TLS-1.1-only, nothing listening), a client-certificate mode (none / request / require-and-verify / require with a foreign client CA) and a behaviour (1..3 certificates with / without / multi-word comments, unparsable lines mixed in, empty or garbage key text, RPC error codes 2/4/7/13/14/16, reply after the deadline); bundles of 1 or 2 CA files. Observed: result, requests seen per endpoint, client certificate seen, request fields unmodified. backoff: base x multiplier x maximum x jitter x attempt (0 .. 2^32-1) grids incl. base 0 and attempts where the power overflows; the Go results of 6 draws must lie in the rational interval of the model. Non-trivial = at least one endpoint configured / attempt > 0; distinct = distinct argument fields.'
-         ' Systematic part: every gRPC status code 1..16, empty / unparsable / late replies and every defective TLS identity as a first endpoint followed by a genuine one; client-certificate modes none / request / request-with-foreign-issuer-hint / require / require-other-CA.',
+         ' Systematic part: every gRPC status code 1..16, empty / unparsable / late replies and every defective TLS identity as a first endpoint followed by a genuine one; client-certificate modes none / request / request-with-foreign-issuer-hint / require / require-other-CA.'
+         ' Server protocol ranges: up to TLS 1.0, up to 1.1 (both with the pre-1.2 cipher suites set explicitly, so that a permissive client could connect), exactly 1.2, 1.3 only.',
     trusted_base=["crypto/tls, crypto/x509, gRPC and grpc_retry implement the handshake, chain building and retry policy (the TLS acceptance rule is Go's documented client behaviour, exercised by real handshakes)", 'ssh.ParseAuthorizedKey decides which reply lines are keys', 'IEEE-754 arithmetic of Backoff is only sampled (bound proved over Q)'],
     assumptions=['Sign / Backoff as repaired for F8 / F9a; known finding F9b'],
  ),
@@ -286,7 +301,8 @@ PROPS = {
     timeout=dict(quick=900, thorough=3400),
     trivial=lambda c: (c['op'] == 'sign' and c['args'][0] == '-') or (c['op'] == 'backoff' and c['args'][4] == '0'),
     rule='sign: the real crypki.NewSigner + Sign (Retries=1, per-try timeout 1.5 s) against 0..4 real TLS gRPC Signing servers on 127.0.0.1..4 sharing one port; per endpoint an identity (issued by configured CA 1 / CA 2, by another CA, self-signed, expired, not yet valid, valid for another address, TLS-1.1-only, nothing listening), a client-certificate mode (none / request / require-and-verify / require with a foreign client CA) and a behaviour (1..3 certificates with / without / multi-word comments, unparsable lines mixed in, empty or garbage key text, RPC error codes 2/4/7/13/14/16, reply after the deadline); bundles of 1 or 2 CA files. Observed: result, requests seen per endpoint, client certificate seen, request fields unmodified. backoff: base x multiplier x maximum x jitter x attempt (0 .. 2^32-1) grids incl. base 0 and attempts where the power overflows; the Go results of 6 draws must lie in the rational interval of the model. Non-trivial = at least one endpoint configured / attempt > 0; distinct = distinct argument fields.'
-         ' Systematic part: every gRPC status code 1..16, empty / unparsable / late replies and every defective TLS identity as a first endpoint followed by a genuine one; client-certificate modes none / request / request-with-foreign-issuer-hint / require / require-other-CA.',
+         ' Systematic part: every gRPC status code 1..16, empty / unparsable / late replies and every defective TLS identity as a first endpoint followed by a genuine one; client-certificate modes none / request / request-with-foreign-issuer-hint / require / require-other-CA.'
+         ' Server protocol ranges: up to TLS 1.0, up to 1.1 (both with the pre-1.2 cipher suites set explicitly, so that a permissive client could connect), exactly 1.2, 1.3 only.',
     trusted_base=["crypto/tls, crypto/x509, gRPC and grpc_retry implement the handshake, chain building and retry policy (the TLS acceptance rule is Go's documented client behaviour, exercised by real handshakes)", 'ssh.ParseAuthorizedKey decides which reply lines are keys', 'IEEE-754 arithmetic of Backoff is only sampled (bound proved over Q)'],
     assumptions=['that crypto/tls implements clientAccepts is assumed (partial)'],
  ),
@@ -301,7 +317,8 @@ PROPS = {
     trivial=lambda c: False,
     rule='stress scenarios against one real shim agent behind yubiagent.ServeAgent in a race-detector-instrumented child process: 2..16 goroutines x 20..50 operations each (list, sign with caller-specific data, add / remove of a caller-owned key, add-hardware-certificate valid / expired, expired certificates injected into the underlying agent so that listings purge, raw forward and extension requests with caller-specific payloads; Signers / Extension / some Forward calls made in-process on the shared agent since the wire protocol does not reach them). '
          'Checked: no data race report, every reply carries the caller\'s own payload / verifies over the caller\'s own data, no operation hangs, final underlying identity set equals the sequential effect. Every scenario is non-trivial; distinct = distinct argument fields.'
-         ' Plus two-operation linearizability rounds: 13 pairs of operations x both modes, each pair run concurrently on a fresh shim 60 (thorough: 600) times and compared with both sequential orders of the same implementation.',
+         ' Plus two-operation linearizability rounds: 13 pairs of operations x both modes, each pair run concurrently on a fresh shim 60 (thorough: 600) times and compared with both sequential orders of the same implementation.'
+         ' Every sequence of four operations (incl. raw forwards of 511 / 512 bytes) on a fresh shim under a per-operation watchdog, both modes.',
     trusted_base=['Go race detector and scheduler (schedules are sampled, not enumerated)', 'the regenerated lock table is a syntactic summary of shimserver.go (first statement, defer, transitive field accesses) produced by /verif/extract'],
     assumptions=['Go memory model / scheduler are not modelled (partial): the theorem is about the locking discipline the source exhibits'],
  ),
@@ -439,7 +456,7 @@ MANIFEST_TEXT = {
     technique='Lean 4 proof over the regenerated TLS configuration record + real-handshake correspondence'),
  'C11': dict(
     text='Lean theorems: for a reader-writer lock and threads that take their method\'s lock first and release on return, mutual exclusion (an exclusive holder is alone) is an invariant of every scheduling step, hence of every interleaving; under the discipline "writers and connection users hold it exclusively, readers at least shared" no reachable state has two threads inside with a write by one and an access by the other to the same cell (the single upstream connection is a cell). '
-         'The discipline is proved (by decide) of the method table regenerated from shimserver.go each run — including Signers and Extension (F7). Supported by race-detector stress runs with own-reply and final-state checks.',
+         'The discipline is proved (by decide) of the method table regenerated from shimserver.go each run — including Signers and Extension (F7). Supported by race-detector stress runs with own-reply and final-state checks. Progress: in every reachable state with an unfinished operation some thread can step and the remaining work strictly decreases (c11_progress, c11_no_deadlock); the harness enumerates all sequences of four operations under a watchdog.',
     design_ref='DESIGN.md §7 C11',
     note=_NOTE + 'Go scheduler / memory model not modelled (partial).',
     technique='Lean 4 proof (invariant over all interleavings of a lock model) over a regenerated lock table + race-detector schedule sampling'),
